@@ -160,3 +160,67 @@ Section Salting.
     induction (cross L R) as [|lr t IH]; cbn; [constructor|]. rewrite E. apply Permutation_app_head. exact IH.
   Qed.
 End Salting.
+
+(* ---------------- relabelling that does NOT preserve the id order ---------------- *)
+(* For rules symmetric in l and r, which orientation of a pair is produced depends on the id
+   order, but whether the unordered pair is produced does not. *)
+Section UnorderedRelabel.
+  Variables A B : Type.
+  Variable f : A -> B.
+  Variable idA : A -> nat.
+  Variable idB : B -> nat.
+
+  Lemma unordered_present_iff (rules : list (A -> A -> tv)) L l r :
+    rules <> [] -> In l L -> In r L -> idA l <> idA r ->
+    (forall rk, In rk rules -> rk l r = rk r l) ->
+    (((exists n, In (n, (l, r)) (block (adm_lt A idA) rules L L)) \/
+      (exists n, In (n, (r, l)) (block (adm_lt A idA) rules L L))) <->
+     exists rk, In rk rules /\ rk l r = T).
+  Proof.
+    intros Hne Hl Hr Hid Hsym. split.
+    - intros [[n H]|[n H]]; unfold block in H; destruct rules as [|a t]; try congruence;
+        apply block_aux_spec in H; destruct H as (_&_&_&_&Hf);
+        assert (E : exists k, first_true 0 (a :: t) l r = Some k \/ first_true 0 (a :: t) r l = Some k) by eauto;
+        clear E.
+      + assert (E : exists k, first_true 0 (a :: t) l r = Some k) by eauto.
+        apply first_true_some_iff in E. exact E.
+      + assert (E : exists k, first_true 0 (a :: t) r l = Some k) by eauto.
+        apply first_true_some_iff in E. destruct E as [rk [Hin Hk]]. exists rk. split; [exact Hin|].
+        rewrite Hsym by exact Hin. exact Hk.
+    - intros [rk [Hin Hk]]. apply present_if_true_both_ways; auto.
+      + exists rk. split; auto.
+      + exists rk. split; auto. rewrite <- Hsym by exact Hin. exact Hk.
+  Qed.
+End UnorderedRelabel.
+
+Theorem relabel_unordered {A B} (f : A -> B) (idA : A -> nat) (idB : B -> nat)
+        (rulesA : list (A -> A -> tv)) (rulesB : list (B -> B -> tv)) L l r :
+  rulesA <> [] ->
+  Forall2 (fun ra rb => forall x y, rb (f x) (f y) = ra x y) rulesA rulesB ->
+  (forall rk, In rk rulesA -> forall x y, rk x y = rk y x) ->
+  In l L -> In r L -> idA l <> idA r -> idB (f l) <> idB (f r) ->
+  (((exists n, In (n, (l, r)) (block (adm_lt A idA) rulesA L L)) \/
+    (exists n, In (n, (r, l)) (block (adm_lt A idA) rulesA L L))) <->
+   ((exists n, In (n, (f l, f r)) (block (adm_lt B idB) rulesB (map f L) (map f L))) \/
+    (exists n, In (n, (f r, f l)) (block (adm_lt B idB) rulesB (map f L) (map f L))))).
+Proof.
+  intros Hne HF Hsym Hl Hr HidA HidB.
+  assert (HneB : rulesB <> []).
+  { destruct HF; [congruence|discriminate]. }
+  assert (HsymB : forall rk, In rk rulesB -> rk (f l) (f r) = rk (f r) (f l)).
+  { clear - HF Hsym. induction HF as [|ra rb ta tb Hab _ IH]; [intros rk []|].
+    intros rk [<-|Hin].
+    - rewrite !Hab. apply Hsym. left; reflexivity.
+    - apply IH; [|exact Hin]. intros rk' Hin'. apply Hsym. right; exact Hin'. }
+  rewrite (unordered_present_iff A idA rulesA L l r Hne Hl Hr HidA (fun rk Hin => Hsym rk Hin l r)).
+  rewrite (unordered_present_iff B idB rulesB (map f L) (f l) (f r) HneB (in_map f L l Hl) (in_map f L r Hr) HidB HsymB).
+  clear - HF. induction HF as [|ra rb ta tb Hab _ IH].
+  - split; intros [rk [[] _]].
+  - split.
+    + intros [rk [[<-|Hin] Hk]].
+      * exists rb. split; [left; reflexivity|]. rewrite Hab. exact Hk.
+      * destruct IH as [IH1 _]. destruct IH1 as [rk' [Hin' Hk']]; [eauto|]. exists rk'. split; [right; exact Hin'|exact Hk'].
+    + intros [rk [[<-|Hin] Hk]].
+      * exists ra. split; [left; reflexivity|]. rewrite <- Hab. exact Hk.
+      * destruct IH as [_ IH2]. destruct IH2 as [rk' [Hin' Hk']]; [eauto|]. exists rk'. split; [right; exact Hin'|exact Hk'].
+Qed.
